@@ -361,10 +361,10 @@ def check_rules(seed, tier, v):
     collect(cases, runs, labels, outs)
     validate(cases, "c01-rules")
     key = lambda row: json.dumps(row[:3])
-    nullrows = {}        # instance -> input rows (a, b, c) on which the instance is NULL
+    nottrue = {}         # instance -> input rows (a, b, c) on which the instance is false or NULL
     for c in cases:
         if c["position"] == "projection" and c["q"]["where"] is None:
-            nullrows[c["instance"]] = {key(r) for r in c["expected"] if r[3][0] == "n"}
+            nottrue[c["instance"]] = {key(r) for r in c["expected"] if r[3] != ["b", 1]}
     n_obs, by_pos, bad_rules = 0, {}, set()
     for c in cases:
         for lab, o in c["obs"].items():
@@ -383,24 +383,21 @@ def check_rules(seed, tier, v):
                 continue
             off = c["obs"].get(f"{eng}.off", {})
             off_ok = "rows" in off and c["match"].get(f"{eng}.off")
-            # F28: a contradiction is folded to false although it is NULL for a NULL operand; invisible in a
-            # filter, visible in a projection (NULL -> false) and under NOT (rows with a NULL instance appear)
+            # F28: rewrites that are only valid for filter conditions (they preserve "is true" but not the
+            # difference between false and NULL: and-gt-lt-conflict folds NULL to false, eq-trans turns false into
+            # NULL). Invisible in a filter; in a projection the cell flips between false and NULL; under NOT the
+            # returned rows differ only on rows where the instance is not true.
             known = False
             if off_ok and v.is_known("F28"):
                 exp, got = c["expected"], o["rows"]
+                fn = (["n", 0], ["b", 0])
                 if c["position"] == "projection" and len(exp) == len(got):
-                    e2, g2 = sorted(exp, key=json.dumps), sorted(got, key=json.dumps)
                     em = {key(r): r[3] for r in exp}
-                    known = all(key(r) in em and (r[3] == em[key(r)] or (em[key(r)][0] == "n" and r[3] == ["b", 0]))
-                                for r in got)
+                    known = all(key(r) in em and (r[3] == em[key(r)] or (em[key(r)] in fn and r[3] in fn)) for r in got)
                 elif c["position"] == "negated filter":
-                    ek = sorted(key(r) for r in exp)
-                    gk = sorted(key(r) for r in got)
-                    extra = list(gk)
-                    for k in ek:
-                        if k in extra:
-                            extra.remove(k)
-                    known = len(extra) == len(gk) - len(ek) and all(k in nullrows.get(c["instance"], ()) for k in extra)
+                    ok_rows = nottrue.get(c["instance"])
+                    gk = [key(r) for r in got]
+                    known = ok_rows is not None and len(set(gk)) == len(gk) and all(k in ok_rows for k in gk)
             if known:
                 v.note_known("F28")
                 bad_rules.add(c["rule"])
